@@ -16,7 +16,7 @@ RULE = ('(A; 2-row frames over the full alphabet, in the thorough tier also 3-ro
         '2 rows (quick) / 3 rows (thorough) over {"", a, b, "a,b-c", "{", "{}", ab, "a "}; transformations on numeric columns over {"", 1, 2, -1}; '
         '(B) all 2^5 subsets of the construction flags (+ 3MR heuristic) through compute_batch_ranking on frames (x multi-valued, y selector, n numeric, label) with the frame recorded '
         'after every step. Oracle: previous frame is an exact prefix (columns, values, row order), new columns have one non-missing value per row, MULTIEX / SUBFEATURE / CONTROL-target '
-        'rules recomputed, triplet names = columns of the final frame; sequence differential over <= 3 successive batches per flag (final frame + triplets vs a pristine process state). distinct_nontrivial = (frame, constructor/flag-set) cases that append at least one column')
+        'rules recomputed, triplet names = columns of the final frame; (C) collision frames: an input column named exactly like a column the constructor derives (every derived name of five base frames, two positions), originals compared by position, the derived column still appended with the values it has without the extra column; sequence differential over <= 3 successive batches per flag (final frame + triplets vs a pristine process state). distinct_nontrivial = (frame, constructor/flag-set) cases that append at least one column')
 ASSUMPTIONS = ['seed lists whose one-sided entries share the source feature but differ in the selector are outside the alphabet (their column names coincide by construction of the naming scheme)']
 
 CELLS = ['', 'a', 'b', 'a,b-c', '{', '{}', 'ab', 'a ']   # '{' is a fragment of the default missing-symbol option ',{}' but not a missing symbol   # token 'ab' contains the tokens 'a' and 'b' (membership must be by token, not by substring); 'a ' differs from 'a' only by trailing whitespace
